@@ -43,7 +43,7 @@ func runC04(c *Ctx, r *Report) {
 	c04R3(c, r, "C04.R3")
 	c04R5(c, r, "C04.R5")
 	c04ProvisionedPointers(c, r, "C04.R10")
-	c01R1(c, r, "C04.R11")      // matchers only ever run frozen: an unfrozen matcher reads from the socket, and one that reads until the data ends (dns over UDP) buffers whatever the peer sends
+	c01R1(c, r, "C04.R11") // matchers only ever run frozen: an unfrozen matcher reads from the socket, and one that reads until the data ends (dns over UDP) buffers whatever the peer sends
 	nilFieldContradictions(c, r, "C04.R12", 1, func(fn *ssa.Function) bool { return fn.Pkg != nil && strings.HasPrefix(fn.Pkg.Pkg.Path(), modPath) })
 	c04PublishedWithError(c, r, "C04.R13")
 	c04BoundedParsers(c, r, "C04.R14")
@@ -802,11 +802,30 @@ func c04R3(c *Ctx, r *Report, rule string) {
 		// path evaluation
 		sc := assertScenarios[fname(fn)]
 		k := fmt.Sprintf("%d assertion(s) by path evaluation", len(unhandled))
+		evalFn := fn
+		if sc == nil {
+			// a helper of a function that has a scenario: that scenario, with the helper evaluated in place
+			sites, _ := c.callSitesOf(fn)
+			for _, site := range sites {
+				caller := site.Parent()
+				if base := assertScenarios[fname(caller)]; base != nil {
+					helper := fn
+					sc = func() *Scenario {
+						s := base()
+						orig := s.Inline
+						s.Inline = func(f *ssa.Function) bool { return f == helper || (orig != nil && orig(f)) }
+						return s
+					}
+					evalFn = caller
+					break
+				}
+			}
+		}
 		if sc == nil {
 			r.bad(rule8, fname(fn), k, c.ipos(unhandled[0]), "unchecked type assertion on a value of unknown dynamic type and no evaluation scenario for this function")
 			continue
 		}
-		paths, err := evalPaths(fn, sc())
+		paths, err := evalPaths(evalFn, sc())
 		if err != nil || len(paths) == 0 {
 			r.bad(rule8, fname(fn), k, c.ipos(unhandled[0]), fmt.Sprintf("undecided: %v", err))
 			continue
